@@ -198,7 +198,7 @@ def command(command_size, word_size):
         one = 2 * (C + W) + 12
         r1c = one <= 80
         c.cover("transaction_completed_nonzero", z3.And(P.done == 1, P.rx != 0, P.cmd != 0), reach=r1c)
-        c.cover("abort_in_command", z3.And(P.abort, P.gs == CMD, P.n != 0))
+        c.cover("abort_in_command", z3.And(P.abort, P.gs == CMD, P.n != 0) if C > 1 else z3.And(P.abort, P.gs == CMD))
         c.cover_depth = one if r1c else 12
     return contract
 
